@@ -179,13 +179,13 @@ pub const PROBE_NAMES: [&str; NPROBES] = [
 
 #[derive(Clone, Debug)]
 pub struct RunStats {
-    pub steps: u32,
-    pub fault_configured: [u32; NKINDS],
-    pub fault_fired: [u32; NKINDS],
-    pub forgets: u32,
-    pub poisons: u32,
-    pub doc_panics: u32,
-    pub probes: [u32; NPROBES],
+    pub steps: u64,
+    pub fault_configured: [u64; NKINDS],
+    pub fault_fired: [u64; NKINDS],
+    pub forgets: u64,
+    pub poisons: u64,
+    pub doc_panics: u64,
+    pub probes: [u64; NPROBES],
     /// coverage cells hit non-trivially by this run (hashes)
     pub cells: Vec<u64>,
 }
